@@ -262,7 +262,10 @@ Concrete(shapes, nl, dc) ==   \* turn a sequence of shapes into events with fres
 
 NLeaves(shapes) == Cardinality({i \in DOMAIN shapes : shapes[i][1] \in {"leaf", "gap", "back", "ger"}})   \* fresh atoms consumed (leafR consumes none)
 
-ShapeSeqs == UNION {[1..n -> Shapes] : n \in 0..MaxEvents}
+(* shapes that cannot occur in the current state are left out before the sequences are enumerated *)
+ShapesNow == { s \in Shapes : /\ (s[1] = "leafR" => reuse # <<>>)
+                              /\ (s[1] \in {"leafD", "gerrm"} => s[2] < nextLeaf) }
+ShapeSeqs == UNION {[1..n -> ShapesNow] : n \in 0..MaxEvents}
 
 DoProcess ==
   \E ss \in ShapeSeqs :
